@@ -354,8 +354,9 @@ class FnTags(object):
             if isinstance(s.target, ast.Subscript):
                 self.sites.append((s, unparse(s.target.value), self.tags(s.target.value, env)))
             elif isinstance(s.target, ast.Name):
-                # x |= y, x -= y, x += y ... change the object x names in place when it is a set / list / dict (for numbers and strings the tags are empty)
-                if isinstance(s.op, (ast.BitOr, ast.BitAnd, ast.BitXor, ast.Sub, ast.Add)):
+                # x |= y, x -= y, x &= y, x ^= y change the object x names in place when it is a set / dict (for numbers the tags are empty)
+                # (+= is left out: on the numbers, strings and tuples it is mostly used with it re-binds)
+                if isinstance(s.op, (ast.BitOr, ast.BitAnd, ast.BitXor, ast.Sub)):
                     cur = env.lookup(s.target.id)
                     if cur:
                         self.sites.append((s, s.target.id, set(cur)))
